@@ -41,7 +41,7 @@ func offers(ae, coding string) bool {
 		q := 1.0
 		for _, p := range f[1:] {
 			p = strings.TrimSpace(p)
-			if strings.HasPrefix(p, "q=") {
+			if strings.HasPrefix(strings.ToLower(p), "q=") {
 				fmt.Sscanf(p[2:], "%g", &q)
 			}
 		}
